@@ -737,6 +737,12 @@ def _snapshot_vars(d):
         if k in ("t", "fn", "s", "f", "exc_cls", "__builtins__") or k.startswith("__"):
             continue
         tn = type(v).__name__
+        if tn == "EvalLocalVar":
+            # pyscript keeps a variable captured by an inner function in a cell object; look through it
+            if not v.is_defined():
+                continue
+            v = v.get()
+            tn = type(v).__name__
         if tn in ("function", "EvalFuncVar", "EvalFunc"):
             tn = "function"      # a def binds a function object (pyscript's own kind of function object)
             out[k] = (tn, "function")
@@ -1107,6 +1113,11 @@ async def c03_definition_order(w):
 
 
 PROGRAMS_C03 = [
+    ("lambda-closure", "def f():\n    x = 41\n    g = lambda y: x + y\n    return g(1)\nr = f()\n"),
+    ("duplicate-keyword-via-mapping", "def f(p, k=None):\n    return (p, k)\ntry:\n    r = f(1, k=2, **{'k': 3})\nexcept TypeError:\n    r = 'TypeError'\n"),
+    ("annotated-assignment-is-local", "x = 1\ndef f():\n    try:\n        return x\n    except NameError as e:\n        return 'unbound'\n    x: int = 2\nr = f()\n"),
+    ("walrus-in-lambda-is-lambda-local", "c = 5\ndef h():\n    g = lambda z: (c := z)\n    return c\nr = h()\n"),
+    ("del-attribute-of-object", "class K:\n    def __init__(self):\n        self.x = 1\n    def drop(self):\n        del self.x\nk = K()\nk.drop()\nr = hasattr(k, 'x')\n"),
     ("closure-counter", "def mk():\n    n = 0\n    def inc():\n        nonlocal n\n        n += 1\n        return n\n    return inc\nc = mk()\nr = [c(), c(), mk()()]\n"),
     ("closures-in-loop", "fs = []\nfor i in range(3):\n    def f(j=i):\n        return (i, j)\n    fs.append(f)\nr = [f() for f in fs]\n"),
     ("global-decl", "g = 1\ndef f():\n    global g\n    g = g + 1\n    return g\nr = [f(), f(), g]\n"),
@@ -2987,8 +2998,21 @@ class _Gen:
         if k == "star":
             return f"[*{e()}, {e()}]"
         if k == "lambda":
-            return f"fn({self.tid()})((lambda z: {e()}))"
+            # lambda bodies stay within their own parameters: a lambda is compiled natively against the GLOBAL symbol table
+            # (documented design; recorded once as the known finding C03-lambda-cannot-read-enclosing-locals)
+            return f"fn({self.tid()})((lambda z: {self.lam_expr(d - 1)}))"
         return self.atom()
+
+    def lam_expr(self, d):
+        rng = self.rng
+        atom = lambda: rng.choice([f"t({self.tid()})", "z", "1", "'s'", "None"])
+        if d <= 0 or rng.random() < 0.4:
+            return atom()
+        k = rng.choice(["bin", "cmp", "bool", "ifexp", "tuple", "attr", "not"])
+        e = lambda: self.lam_expr(d - 1)
+        return {"bin": f"({e()} {rng.choice(['+', '-', '*', '|'])} {e()})", "cmp": f"({e()} {rng.choice(['==', '<', 'in', 'is'])} {e()})",
+                "bool": f"({e()} {rng.choice(['and', 'or'])} {e()})", "ifexp": f"({e()} if {e()} else {e()})", "tuple": f"({e()}, {e()}, )",
+                "attr": f"{e()}.x", "not": f"(not {e()})"}[k]
 
     def target(self, d):
         r = self.rng.random()
@@ -3069,6 +3093,98 @@ class _Gen:
         return f"{pad}pass\n"
 
 
+class _GenF(_Gen):
+    """programs about functions, scoping, classes and control flow inside functions"""
+
+    def params(self):
+        rng = self.rng
+        ps, call = [], []
+        n_pos = rng.randrange(0, 3)
+        names = ["p", "q", "r"][:n_pos]
+        for i, nm in enumerate(names):
+            if rng.random() < 0.4:
+                ps.append(f"{nm}={self.expr(1)}")
+            else:
+                ps.append(nm)
+        if rng.random() < 0.3:
+            ps.append("*rest")
+        elif rng.random() < 0.3:
+            ps.append("*")
+        if ps and ps[-1].startswith("*") and rng.random() < 0.7:
+            ps.append(rng.choice(["k", f"k={self.expr(1)}"]))
+        if ps and ps[-1] == "*":
+            ps.append("k=None")
+        if rng.random() < 0.3:
+            ps.append("**kw")
+        # a call with a random (possibly wrong) shape
+        n_args = rng.randrange(0, 4)
+        call = [self.expr(1) for _ in range(n_args)]
+        if rng.random() < 0.4:
+            call.append(f"{rng.choice(['p', 'q', 'k', 'zz'])}={self.expr(1)}")
+        if rng.random() < 0.2:
+            call.append(f"*[{self.expr(1)}]")
+        if rng.random() < 0.2:
+            call.append("**{'k': " + self.expr(1) + "}")
+        # keyword arguments must follow positional ones
+        pos = [c for c in call if "=" not in c and not c.startswith("**")]
+        kws = [c for c in call if "=" in c or c.startswith("**")]
+        return ", ".join(ps), ", ".join(pos + kws)
+
+    def fbody(self, d, ind, names):
+        rng = self.rng
+        pad = "    " * ind
+        out = ""
+        if rng.random() < 0.3:
+            out += f"{pad}global {rng.choice(self.vars)}\n"
+        elif ind >= 2 and rng.random() < 0.4:
+            out += f"{pad}nonlocal w\n"
+        for _ in range(rng.randrange(1, 4)):
+            r = rng.random()
+            if r < 0.25:
+                out += f"{pad}{rng.choice(self.vars + ['w', 'v'])} = {self.expr(2)}\n"
+            elif r < 0.35:
+                out += f"{pad}{rng.choice(self.vars + ['w'])} {rng.choice(['+=', '-='])} {self.expr(1)}\n"
+            elif r < 0.45 and d > 0:
+                out += f"{pad}for x in {self.expr(1)}:\n{pad}    if {self.expr(1)}:\n{pad}        return {self.expr(1)}\n{pad}    {rng.choice(['continue', 'break', 's(' + str(self.tid()) + ')'])}\n"
+            elif r < 0.55 and d > 0:
+                out += (f"{pad}try:\n{pad}    {rng.choice(['return ' + self.expr(1), 'raise KeyError(' + self.expr(1) + ')', self.expr(2)])}\n"
+                        f"{pad}except {rng.choice(['KeyError', 'TracerError', 'Exception'])} as e:\n{pad}    {rng.choice(['raise', 'return ' + self.expr(1), 'w = ' + self.expr(1), 'pass'])}\n"
+                        + (f"{pad}finally:\n{pad}    {rng.choice(['s(' + str(self.tid()) + ')', 'return ' + self.expr(1), 'v = ' + self.expr(1)])}\n" if rng.random() < 0.5 else ""))
+            elif r < 0.65 and d > 0 and ind < 3:
+                ps, call = self.params()
+                out += f"{pad}def inner({ps}):\n" + self.fbody(d - 1, ind + 1, names) + f"{pad}{rng.choice(['v', 'w'])} = inner({call})\n"
+            elif r < 0.72:
+                out += f"{pad}{rng.choice(['w', 'v'])} = (lambda z, y={self.lam_expr(1)}: {self.lam_expr(1)})({self.expr(1)})\n"
+            elif r < 0.8:
+                out += f"{pad}{self.expr(2)}\n"
+            elif r < 0.86:
+                out += f"{pad}del {rng.choice(['w', 'v'] + self.vars)}\n"
+            else:
+                out += f"{pad}{rng.choice(['w', 'v'])} = [{self.expr(1)} for x in {self.expr(1)} if {self.expr(1)}]\n"
+        out += f"{pad}return {rng.choice(['w', 'v', self.expr(1), '(w, v)'])}\n" if rng.random() < 0.8 else ""
+        return out
+
+    def program(self):
+        rng = self.rng
+        out = ""
+        if rng.random() < 0.35:
+            # a class with an attribute, a method and instance use
+            ps, call = self.params()
+            out += "class K:\n    attr = " + self.expr(1) + "\n"
+            out += f"    def __init__(self, v0={self.expr(1)}):\n        self.v0 = v0\n"
+            out += f"    def m(self{', ' if ps else ''}{ps}):\n        w = self.v0\n        v = K.attr\n" + self.fbody(1, 2, [])
+            out += f"k = K({self.expr(1) if rng.random() < 0.5 else ''})\n"
+            out += f"a = k.m({call})\n"
+            out += rng.choice(["b = k.v0\n", "del k.v0\n", "k.v0 = " + self.expr(1) + "\n", "c = K.attr\n"])
+            return out
+        ps, call = self.params()
+        out += f"def f({ps}):\n    w = {self.expr(1)}\n    v = None\n" + self.fbody(2, 1, [])
+        out += f"a = f({call})\n"
+        if rng.random() < 0.4:
+            out += f"b = f({self.params()[1]})\n"
+        return out
+
+
 async def c01_random_bounded(w):
     """Bounded stand-in beyond the templates: random programs (expressions and statements of the subset, over tracer values whose
     special methods log every call; truth values, iteration lengths and one scripted failure point chosen at random) run by the real
@@ -3081,7 +3197,9 @@ async def c01_random_bounded(w):
     failures, cases, seen = [], 0, set()
     for i in range(n):
         g = _Gen(rng)
-        if mode_stmt == "expr" or (mode_stmt == "both" and rng.random() < 0.4):
+        if mode_stmt == "func":
+            src, mode = _GenF(rng).program(), "exec"
+        elif mode_stmt == "expr" or (mode_stmt == "both" and rng.random() < 0.4):
             src, mode = g.expr(3), "eval"
         else:
             src, mode = "".join(g.stmt(2, 0) for _ in range(rng.randrange(1, 4))), "exec"
